@@ -44,6 +44,13 @@ func c17PlmnOracle(c c17Plmn) ev.Verdict {
 	}
 	if mcc, mnc, err := refid.DecodePLMN(got); err != nil || mcc != c.MCC || mnc != c.MNC {
 		v.Key, v.Err = "PlmnIDToNas:inverse", fmt.Errorf("PlmnIDToNas(%s,%s) = %x decodes to %s/%s (%v)", c.MCC, c.MNC, got, mcc, mnc, err)
+		return v
+	}
+	if (len(c.MCC)+len(c.MNC))%7 == 0 || c.MNC == "00" || c.MNC == "000" { // a sample of the exhaustive sweep
+		c17Interfere()
+		if !bytes.Equal(got, want) {
+			v.Key, v.Err = "retained:PlmnIDToNas-result-overwritten-by-later-calls", fmt.Errorf("the octets returned for %s/%s read %x after the converter was used for other PLMNs", c.MCC, c.MNC, got)
+		}
 	}
 	return v
 }
@@ -162,6 +169,11 @@ func c17SnssaiOracle(c c17Snssai) ev.Verdict {
 	got := nasConvert.SnssaiToNas(models.Snssai{Sst: int32(c.SST), Sd: sdText})
 	if !bytes.Equal(got, want) {
 		v.Key, v.Err = "SnssaiToNas", fmt.Errorf("SnssaiToNas(sst %d, sd %q) = %x, TS 24.501 §9.11.2.8 coding %x", c.SST, sdText, got, want)
+		return v
+	}
+	c17Interfere()
+	if !bytes.Equal(got, want) {
+		v.Key, v.Err = "retained:SnssaiToNas-result-overwritten-by-later-calls", fmt.Errorf("the octets returned for sst %d sd %q read %x after the converters were used for other values", c.SST, sdText, got)
 	}
 	return v
 }
@@ -321,6 +333,11 @@ func c17IPOracle(c c17IP) ev.Verdict {
 	r4, r6 := ngapConvert.IPAddressToString(ngapConvert.IPAddressToNgap(t4, canon6))
 	if r4 != t4 || r6 != canon6 {
 		v.Key, v.Err = "IPAddress:roundtrip:" + kind, fmt.Errorf("(%q,%q) → BIT STRING → (%q,%q)", t4, canon6, r4, r6)
+		return v
+	}
+	c17Interfere()
+	if int(tla.Value.BitLength) != wantBits || !bytes.Equal(tla.Value.Bytes, wantOct) {
+		v.Key, v.Err = "retained:IPAddressToNgap-result-overwritten-by-later-calls", fmt.Errorf("the BIT STRING returned for (%q,%q) reads %x/%d after the converters were used for other addresses", t4, t6, tla.Value.Bytes, tla.Value.BitLength)
 	}
 	return v
 }
@@ -416,8 +433,45 @@ func c17PCOOracle(c c17PCO) ev.Verdict {
 	q2 := nasConvert.NewProtocolConfigurationOptions()
 	if err := q2.UnMarshal(p.Marshal()); err != nil || samePCO(q2.ProtocolOrContainerList, c.Units) != nil {
 		v.Key, v.Err = "PCO:roundtrip", fmt.Errorf("UnMarshal(Marshal(x)) != x (%v)", err)
+		return v
+	}
+	c17Interfere()
+	if !bytes.Equal(got, want) {
+		v.Key, v.Err = "retained:PCO.Marshal-result-overwritten-by-later-calls", fmt.Errorf("the octets Marshal returned (%x) read %x after the converters were used for other values", want, got)
+		return v
+	}
+	if err := samePCO(q.ProtocolOrContainerList, c.Units); err != nil {
+		v.Key, v.Err = "retained:PCO.UnMarshal-result-changed-by-later-calls", fmt.Errorf("the list UnMarshal returned changed after the converters were used for other values: %v", err)
 	}
 	return v
+}
+
+// c17Interfere uses every slice-returning converter for other, fixed inputs — what a caller serving several UEs or
+// sessions does between obtaining a result and using it. A result that these later calls rewrite was never the
+// encoding of its own argument.
+func c17Interfere() {
+	_, _ = ev.Guard(func() error {
+		p := nasConvert.NewProtocolConfigurationOptions()
+		for _, u := range []struct {
+			id uint16
+			c  []byte
+		}{{0x000d, []byte{8, 8, 8, 8}}, {0x0010, []byte{0x05, 0x78}}, {0x000a, nil}} {
+			pu := nasConvert.NewProtocolOrContainerUnit()
+			pu.ProtocolOrContainerID, pu.LengthOfContents = u.id, uint8(len(u.c))
+			pu.Contents = append(pu.Contents, u.c...)
+			p.ProtocolOrContainerList = append(p.ProtocolOrContainerList, pu)
+		}
+		b := p.Marshal()
+		q := nasConvert.NewProtocolConfigurationOptions()
+		_ = q.UnMarshal(b)
+		_ = nasConvert.PlmnIDToNas(models.PlmnId{Mcc: "999", Mnc: "999"})
+		_ = nasConvert.SnssaiToNas(models.Snssai{Sst: 255, Sd: "ffffff"})
+		t := ngapConvert.IPAddressToNgap("255.255.255.255", "ffff:ffff:ffff:ffff:ffff:ffff:ffff:ffff")
+		_, _ = ngapConvert.IPAddressToString(t)
+		d := util_3gpp.Dnn([]byte("zzzzzzzzzzzzzzzzzzzzzzzzzzzzzzzz"))
+		_, _ = d.MarshalBinary()
+		return nil
+	})
 }
 
 func bucket(n int) string {
